@@ -51,11 +51,13 @@ META = {
         'gauss_seidel_ne / gauss_seidel_nr: 2-norm of the error / residual does not increase (exact evaluation of the real '
         'output); jacobi_ne: shape, zero guess, zero result for b = 0 only',
         'Krylov names: shape of b, zero on empty matrices, residual reduced to 1e-6 on small SPD matrices',
-        'complex matrices: Penrose / inverse certificates are evaluated by the driver over Gaussian rationals; the '
-        'theorems pinv_min_norm_least_squares / direct_solution_unique are stated for ordered fields (real case)',
     ],
     'partial': [],
     'assumptions': [
+        'complex matrices: the certificates isPinv / isInv / isHPD (conj = CRat.conj, isPos = posC) are evaluated by the '
+        'driver over Gaussian rationals per instance; what they mean over C is proved (isPinv_sound_complex, '
+        'isInv_sound_complex, isHPD_sound_complex; clauses pinv_call_min_norm_complex, direct_call_solves_complex, '
+        'splu_call_spec_conj: minimisation / uniqueness over all complex vectors)',
         'external contracts (checked per instance against exact oracles, not proved): scipy.linalg.pinv = Moore-Penrose '
         'inverse, lu_factor/lu_solve, cho_factor/cho_solve (Hermitian positive definite input only: `cholesky` is judged '
         'on HPD matrices, cho_factor reads one triangle), SuperLU splu/solve = solution for nonsingular input',
@@ -500,7 +502,21 @@ def gen_history(rng, mat, spec):
             b = rng.integers(-4, 5, size=n).astype(D.dtype)
             if mat.cplx:
                 b = b + 1j * rng.integers(-3, 4, size=n)
-        calls.append({'shape': shape, 'b': np.asarray(b, dtype=D.dtype), 'k': 0, 'aslist': bool(rng.random() < 0.08)})
+        b = np.asarray(b, dtype=D.dtype)
+        bdt = None
+        if rng.random() < 0.22:
+            # a right-hand side whose dtype differs from the matrix (direct use of the solver object)
+            if mat.cplx:
+                bdt = str(rng.choice(['float64', 'float32', 'int64']))
+                b = b.real.astype(bdt)
+            else:
+                bdt = str(rng.choice(['complex128', 'complex64', 'float32', 'int64', 'int32']))
+                if bdt.startswith('complex'):
+                    b = (b + 1j * rng.integers(-3, 4, size=n)).astype(bdt)
+                else:
+                    b = np.round(b).astype(bdt) if np.all(np.abs(b) < 2 ** 20) else b
+                    bdt = str(b.dtype)
+        calls.append({'shape': shape, 'b': b, 'k': 0, 'aslist': bool(rng.random() < 0.08), 'bdtype': bdt})
     return calls
 
 
@@ -651,7 +667,7 @@ def run_impl(mats, spec, calls, seed):
 
 def case_dict(mats, spec, calls):
     return {'mats': [m.to_case() for m in mats], 'spec': {'arg': spec['arg'], 'opts': spec.get('opts') or {}, 'tuple': bool(spec.get('tuple'))},
-            'calls': [{'shape': c['shape'], 'k': c['k'], 'aslist': bool(c.get('aslist')),
+            'calls': [{'shape': c['shape'], 'k': c['k'], 'aslist': bool(c.get('aslist')), 'bdtype': str(np.asarray(c['b']).dtype),
                        'b': ([[float(z.real), float(z.imag)] for z in c['b']] if np.iscomplexobj(c['b']) else [float(z) for z in c['b']])}
                       for c in calls]}
 
@@ -665,6 +681,8 @@ def case_from_dict(d):
             b = np.array([complex(z[0], z[1]) for z in b], dtype=complex)
         else:
             b = np.array(b, dtype=complex if mats[0].cplx else float)
+        if c.get('bdtype'):
+            b = b.real.astype(c['bdtype']) if (np.iscomplexobj(b) and not c['bdtype'].startswith('complex')) else b.astype(c['bdtype'])
         calls.append({'shape': c['shape'], 'k': c.get('k', 0), 'b': b, 'aslist': bool(c.get('aslist'))})
     spec = {'arg': d['spec']['arg'], 'opts': d['spec'].get('opts') or {}, 'tuple': d['spec'].get('tuple', False)}
     return mats, spec, calls
@@ -690,6 +708,11 @@ def matrix_facts(mat):
     return f
 
 
+def case_cplx(mats, calls):
+    """the scalar field of the model run: Gaussian rationals as soon as a matrix or a right-hand side is complex"""
+    return bool(any(m.cplx for m in mats) or any(np.iscomplexobj(c['b']) for c in calls))
+
+
 def judge_batch(ctx, items, seed=0):
     """items: list of (mats, spec, calls).  Runs model + oracle (Lean) and the real code; records
     correspondence failures and violations."""
@@ -697,7 +720,7 @@ def judge_batch(ctx, items, seed=0):
     lines, index = [], []
     seen = {}
     for it, (mats, spec, calls) in enumerate(items):
-        cplx = mats[0].cplx
+        cplx = case_cplx(mats, calls)
         f = 'c' if cplx else 'r'
         a, o, cb = lean_tokens(spec)
         callstr = ';'.join(f'{c["k"]}:{c["shape"]}:{enc_vec(c["b"], cplx)}' for c in calls)
@@ -719,7 +742,7 @@ def judge_batch(ctx, items, seed=0):
     for (it, what), r in zip(index, replies):
         info[it][what] = r
     for it, (mats, spec, calls) in enumerate(items):
-        src = seen[(mats[0].M.tobytes(), mats[0].M.shape, mats[0].cplx)]
+        src = seen[(mats[0].M.tobytes(), mats[0].M.shape, case_cplx(mats, calls))]
         if src != it:
             for w in ('pinv', 'hpd'):
                 info[it][w] = info[src][w]
@@ -779,7 +802,7 @@ def _judge_one(ctx, mats, spec, calls, inf, seed):
     facts = matrix_facts(mat)
     n = mat.n
     multi = len(mats) > 1 and any(c['k'] != 0 for c in calls)
-    key = _key(mat.M.tobytes(), mat.explicit, mat.fmt, repr(spec), [(c['shape'], c['k'], c['b'].tobytes()) for c in calls])
+    key = _key(mat.M.tobytes(), mat.explicit, mat.fmt, repr(spec), [(c['shape'], c['k'], str(c['b'].dtype), c['b'].tobytes()) for c in calls])
     ctx.case(key=key, nontrivial=(facts['nnz'] > 0 and n >= 2 and len(calls) >= 2),
              sample={'spec': repr(spec), 'class': mat.cls, 'n': n, 'calls': len(calls), 'model': inf['run'][:120]} if ctx.evaluations % 211 == 0 else None)
     ctx.feat('class:' + mat.cls)
@@ -843,6 +866,14 @@ def _judge_one(ctx, mats, spec, calls, inf, seed):
         bshape = r['bshape']
         b = c['b']
         stale = multi and any(cc['k'] != calls[0]['k'] for cc in calls[:ci + 1])
+        mixed = np.asarray(b).dtype != Ak.M.dtype
+        if mixed:
+            ctx.feat(f'mixed-dtype:A-{Ak.M.dtype}:b-{np.asarray(b).dtype}')
+            if r['exc'] is not None and r['exc'].startswith(('TypeError', 'ValueError')):
+                # the code refuses the dtype combination (relaxation kernels, SuperLU, SciPy minres): an explicit
+                # rejection, not a wrong answer; what is judged for mixed dtypes is every value that IS returned
+                ctx.feat('mixed-dtype-rejected:' + str(name))
+                continue
         # ---------- correspondence with the model
         if undefined and multi:
             pass
@@ -1018,8 +1049,9 @@ def _judge_call(ctx, out, ci, Ak, fk, spec, c, r, X, inv_ok, hpd, viol):
             viol(f'{tag}: b = 0 but the result is {x.ravel()[:6]} (not started from the zero guess)')
             return
         ctx.feat('clause:relax-energy')
-        f = 'c' if Ak.cplx else 'r'
-        out['quad'].append((ci, f'c16_quad {f} {enc_csr(Ak.csr(), Ak.cplx)} {enc_vec(b, Ak.cplx)} {enc_vec(x, Ak.cplx)}'))
+        qc = bool(Ak.cplx or np.iscomplexobj(b) or np.iscomplexobj(x))
+        f = 'c' if qc else 'r'
+        out['quad'].append((ci, f'c16_quad {f} {enc_csr(Ak.csr(), qc)} {enc_vec(b, qc)} {enc_vec(x, qc)}'))
         out.setdefault('xs', {})[ci] = (_exact_matvec(X, b) if X is not None else None, x, tag)
         return
 
@@ -1132,6 +1164,22 @@ def fixed_items():
     out.append(([Mat(np.array([[7.0, -12, -1], [-12, 27, 3], [-1, 3, 1]]), 'spd')], {'arg': 'gauss_seidel_ne'}, [{'shape': 'c', 'k': 0, 'b': np.array([-2.0, 0, 2])}]))
     out.append(([Mat(np.array([[9.0, 0, 0, -8], [0, 27, -2, 2], [0, -2, 1, -1], [-8, 2, -1, 20]]), 'spd')], {'arg': 'jacobi_ne'},
                 [{'shape': 'v', 'k': 0, 'b': np.array([1.0, -2, 3, 1])}]))
+    # mixed dtypes, every solver name, both shapes: complex matrix with real right-hand sides, real matrix with complex ones
+    Hc = np.array([[3, 1j, 0], [-1j, 3, 1], [0, 1, 2]], dtype=complex)
+    Nc = np.array([[3, 1j, 1], [0, 2 - 1j, 0], [1, 0, 4j]], dtype=complex)
+    Sr = np.array([[3.0, -1, 0], [-1, 3, 1], [0, 1, 2]])
+    Nr = np.array([[3.0, 1, 0], [0, 2, -1], [1, 0, 4]])
+    for nm in DIRECT + RELAX + KRYLOV + [None, 'cb:scale', 'cb:flat']:
+        for M, cls in ((Hc, 'hpd_c'), (Nc, 'nonsym_c')):
+            out.append(([Mat(M, cls)], {'arg': nm}, [
+                {'shape': 'v', 'k': 0, 'b': np.array([1.0, 2, 3])}, {'shape': 'c', 'k': 0, 'b': np.array([2, -1, 1], dtype=np.float32)},
+                {'shape': 'c', 'k': 0, 'b': np.array([1, 0, -2], dtype=np.int64)}, {'shape': 'v', 'k': 0, 'b': np.array([1j, 2, 1 - 1j])},
+                {'shape': 'v', 'k': 0, 'b': np.array([3, 1, 1], dtype=np.int32)}, {'shape': 'c', 'k': 0, 'b': np.array([0.5, 2, -3])}]))
+        for M, cls in ((Sr, 'spd'), (Nr, 'nonsym')):
+            out.append(([Mat(M, cls)], {'arg': nm}, [
+                {'shape': 'v', 'k': 0, 'b': np.array([1 + 1j, 2, 3 - 1j])}, {'shape': 'c', 'k': 0, 'b': np.array([2j, -1, 1], dtype=np.complex64)},
+                {'shape': 'c', 'k': 0, 'b': np.array([1, 0, -2], dtype=np.float32)}, {'shape': 'v', 'k': 0, 'b': np.array([1, 4, -2], dtype=np.int64)},
+                {'shape': 'v', 'k': 0, 'b': np.array([1.0, 2, 3])}, {'shape': 'c', 'k': 0, 'b': np.array([1 - 2j, 0, 1j])}]))
     E = np.zeros((3, 3))
     for nm in DIRECT + KRYLOV + RELAX + [None, 'cb:scale']:
         out.append(([Mat(E, 'empty')], {'arg': nm}, [{'shape': 'c', 'k': 0, 'b': np.array([1.0, 2, 3])}, {'shape': 'v', 'k': 0, 'b': np.array([1.0, 2, 3])}]))
